@@ -186,6 +186,13 @@ func readFilesAsKeys(files []string, basePath string, encryptor keystore.KeyEncr
 func (store *KeyBackuper) Export(exportIDs []keystore.ExportID, mode keystore.ExportMode) (*keystore.KeysBackup, error) {
 	var exportedKeys []*keystore.Key
 	var err error
+	// private and symmetric key material selected by id: wiped once it has been encoded and encrypted
+	var sensitive [][]byte
+	defer func() {
+		for _, content := range sensitive {
+			utils.ZeroizeBytes(content)
+		}
+	}()
 
 	if len(exportIDs) != 0 {
 		for _, exportID := range exportIDs {
@@ -215,7 +222,7 @@ func (store *KeyBackuper) Export(exportIDs []keystore.ExportID, mode keystore.Ex
 					return nil, err
 				}
 
-				utils.ZeroizeBytes(keypair.Private.Value)
+				sensitive = append(sensitive, keypair.Private.Value)
 				exportedKeys = append(exportedKeys, &keystore.Key{
 					Name:    PoisonKeyFilename,
 					Content: keypair.Private.Value,
@@ -244,7 +251,7 @@ func (store *KeyBackuper) Export(exportIDs []keystore.ExportID, mode keystore.Ex
 					log.WithError(err).Error("Cannot read client storage private key")
 					return nil, err
 				}
-				utils.ZeroizeBytes(key.Value)
+				sensitive = append(sensitive, key.Value)
 				exportedKeys = append(exportedKeys, &keystore.Key{
 					Name:    GetServerDecryptionKeyFilename(exportID.ContextID),
 					Content: key.Value,
@@ -255,7 +262,7 @@ func (store *KeyBackuper) Export(exportIDs []keystore.ExportID, mode keystore.Ex
 					log.WithError(err).Error("Cannot read client symmetric key")
 					return nil, err
 				}
-				utils.ZeroizeBytes(key)
+				sensitive = append(sensitive, key)
 				exportedKeys = append(exportedKeys, &keystore.Key{
 					Name:    getClientIDSymmetricKeyName(exportID.ContextID),
 					Content: key,
@@ -266,7 +273,7 @@ func (store *KeyBackuper) Export(exportIDs []keystore.ExportID, mode keystore.Ex
 					log.WithError(err).Error("Cannot read client symmetric key")
 					return nil, err
 				}
-				utils.ZeroizeBytes(key)
+				sensitive = append(sensitive, key)
 				exportedKeys = append(exportedKeys, &keystore.Key{
 					Name:    getHmacKeyFilename(exportID.ContextID),
 					Content: key,
